@@ -32,6 +32,7 @@ class Exec(ExprMixin, CallMixin, StmtMixin):
     listof_handlers = {}
     isinstance_handlers = {}
     iter_handlers = {}
+    sortedof_handlers = {}
     global_values = {}
     global_calls = {}
     type_aliases = {}
@@ -72,6 +73,8 @@ class Exec(ExprMixin, CallMixin, StmtMixin):
                 raise Unsupported("parameter %s of %s has no sort in the contract" % (n, con.qualname), self.fn)
         for n, ty in con.params.items():
             st.env[n] = fresh(ty, n, cf)
+            for f in wf(st.env[n]):
+                st.assume(f)
             if isinstance(ty, TObj):
                 self.param_objs.add(n)
         if self.fn.args.vararg or self.fn.args.kwarg:
@@ -83,12 +86,21 @@ class Exec(ExprMixin, CallMixin, StmtMixin):
         for label, f in con.requires(self.old_ctx):
             st.assume(f)
             self.req_labels.append(label)
+        # ghost definitions: fresh constants with definitional facts (conservative extensions)
+        if hasattr(con, "ghost_defs"):
+            for name, (val, facts) in con.ghost_defs(self.old_ctx).items():
+                st.env[name] = val
+                pre_env[name] = val
+                for f in facts:
+                    st.assume(f)
         self.pre_pc = list(st.pc)
         body = front.strip_docstring(self.fn.body)
         outs = self.exec_block(body, st)
         self.exits = []
         for o in outs:
             self.finish(o, pre_env)
+        for ob in self.obligations:
+            ob.hyps.extend(S.GLOBAL_AXIOMS)
         # abstract string literals met in this function are pairwise distinct
         lits = sorted(self.str_literals)
         if len(lits) > 1 or (lits and "" not in lits):
@@ -120,6 +132,14 @@ class Exec(ExprMixin, CallMixin, StmtMixin):
             for h in self.hz:
                 self.emit(Obligation("%s/%s/return-type[%s]" % (q, st.pathname(), h.what), pc, h.safe, kind="safety"))
                 pc.append(h.safe)
+            if hasattr(con, "ghost_exit"):
+                # ghost (model) fields are assigned by the sidecar at normal exit
+                gctx = S.Ctx(st.env, old=self.old_ctx, result=res, loops=st.loops)
+                recv = next(iter(con.params))
+                rec = dict(st.env[recv].t)
+                for a, v in con.ghost_exit(gctx).items():
+                    rec[a] = v
+                st.env[recv] = Val(st.env[recv].ty, rec)
             ctx = S.Ctx(st.env, old=self.old_ctx, result=res, loops=st.loops)
             for label, f in con.ensures(ctx):
                 self.emit(Obligation("%s/%s/ensures[%s]" % (q, st.pathname(), label), pc, f, kind="ensures"))
